@@ -206,7 +206,7 @@ func TestVerif_C13(t *testing.T) {
 			t.Fatalf("replay: seed cannot be encoded: %v", err)
 		}
 		run := &c13Runner{sink: cgenDirectSink{r}, full: full}
-		run.runCase(0, cgenSeed{ct, rc.Devs, enc, 0}, rc.Mut)
+		run.runCase(0, cgenSeed{ct, rc.Devs, enc, 0, true}, rc.Mut)
 		return
 	}
 
@@ -225,7 +225,7 @@ func TestVerif_C13(t *testing.T) {
 				continue
 			}
 			ord := uint64(0)
-			cgenMutations(seed.enc, full, func(m cgenMut) {
+			cgenMutations(seed.enc, full && seed.structural, func(m cgenMut) {
 				if sink.Begin(seed.unit, ord) {
 					run.runCase(seed.unit, seed, m)
 				}
@@ -250,13 +250,13 @@ func TestVerif_C13(t *testing.T) {
 			seed.unit = uint64(u)
 			units = append(units, seed)
 			byUnit[seed.unit] = seed
-			planned += cgenMutCount(seed.enc, full)
+			planned += cgenMutCount(seed.enc, full && seed.structural)
 		}
 	}
 	if os.Getenv("C13_INPROC") != "" { // profiling aid: no isolation
 		run := &c13Runner{sink: cgenDirectSink{r}, full: full}
 		for _, seed := range units {
-			cgenMutations(seed.enc, full, func(m cgenMut) { run.runCase(seed.unit, seed, m) })
+			cgenMutations(seed.enc, full && seed.structural, func(m cgenMut) { run.runCase(seed.unit, seed, m) })
 		}
 		return
 	}
